@@ -19,6 +19,7 @@ const (
 	sigDupExtension    = "duplicate-extension-number-accepted"
 	sigPackedVsFeature = "packed-option-and-feature-order"
 	sigLazyExtension   = "protodesc-ignores-lazy-on-extension"
+	sigExtUTF8         = "editions-extension-utf8-validation-not-enforced"
 )
 
 type lineDiff struct {
@@ -200,4 +201,20 @@ func classifyProtoDiff(p *descriptorpb.FileDescriptorProto, diff string) string 
 		return sigEditionsReq
 	}
 	return ""
+}
+
+// chk is c.Check, except that failures carrying a finding signature are recorded at most twice per signature
+// and run (further occurrences are only counted in the histogram), so that a frequent known finding does not
+// exhaust the failure budget and hide anything else.
+var sigSeen = map[string]int{}
+
+func chk(c *C, ok bool, what string, input any, sig string) bool {
+	if !ok && sig != "" {
+		c.Hist("finding:" + sig)
+		if sigSeen[sig] >= 2 {
+			return false
+		}
+		sigSeen[sig]++
+	}
+	return c.Check(ok, what, input, sig)
 }
